@@ -55,7 +55,12 @@ def spec_view(res, meta):
         fmp=info["fmp_before"].l, fmpn=sysm.by_name("fmp").l,
         hp=helpers,
     )
-    return specmod.S(ctx, top, nxt, cells)
+    view = specmod.S(ctx, top, nxt, cells)
+    # what the operation asked of the memory chiplet and of the advice provider, in order
+    view.mem = [(ev[1].split("::")[-1], ev[2], ev[3]) for ev in res.events if ev[0] == "chiplets" and "mem" in ev[1]]
+    view.adv = [ev[2] for ev in res.events if ev[0] == "host" and "pop_adv" in ev[1]]
+    view.ctxid = info.get("ctx_before")
+    return view
 
 
 def run_op(interp, meta, op_name, overflow_items):
@@ -68,7 +73,7 @@ def run_op(interp, meta, op_name, overflow_items):
         ref = mirsym.Ref({"p": proc}, "p")
         it.info.update(overflow_items=overflow_items, b1_before=proc.stack.b1, top_before=list(proc.stack.top),
                        clk_before=proc.system.clk_felt(it), fmp_before=proc.system.by_name("fmp"),
-                       clk_int=proc.system.clk.v, max_cycles=proc.max_cycles.v,
+                       clk_int=proc.system.clk.v, max_cycles=proc.max_cycles.v, ctx_before=z3.Int("ctxid"),
                        overflow_before=list(proc.stack.overflow), op=op)
 
         def thunk():
